@@ -25,7 +25,7 @@ impl Profile for ProxyTwin {
     }
     fn gen_world(&self, rng: &mut Rng, reg: &Reg) -> WorldPlan {
         let pool: Vec<&Entry> = reg.tagged("proxy").into_iter().filter(|e| e.spec.has_tag("regular") && e.proxy.is_some()).collect();
-        let n = rng.range(1, 3) as usize;
+        let n = rng.range(1, 3 + crate::extra_contracts()) as usize;
         let mut codes = vec![];
         let mut codes1 = vec![];
         for _ in 0..n {
@@ -63,9 +63,9 @@ impl Profile for ProxyTwin {
         sg.fail_pm = *rng.pick(&[0, 100, 300]);
         sg.funds_pm = *rng.pick(&[0, 200]);
         sg.typed_pct = *rng.pick(&[0, 50, 100]);
-        sg.max_depth = rng.range(0, 2) as u32;
+        sg.max_depth = rng.range(0, 2 + crate::extra_depth()) as u32;
         let accounts = &base.accounts;
-        let n = rng.range(3, 12);
+        let n = rng.range(3, 12 * crate::scale());
         let mut ops = vec![];
         let mut n_contracts = base.contracts.len();
         for _ in 0..n {
